@@ -38,8 +38,16 @@ func (c *countingCtx) Done() <-chan struct{} {
 	}
 	return c.done
 }
+
+// Err is a poll too: code may look at ctx.Err() instead of selecting on Done(), so the k-th poll of EITHER kind
+// is where the cancellation lands.
 func (c *countingCtx) Err() error {
 	if c.cancel.Load() {
+		return context.Canceled
+	}
+	n := c.n.Add(1)
+	if c.k > 0 && n >= c.k {
+		c.once.Do(func() { c.cancel.Store(true); close(c.done) })
 		return context.Canceled
 	}
 	return nil
@@ -69,7 +77,7 @@ func (g *G) canonicalInputs(n int) (*sparse.Matrix, *sparse.Vector) {
 	basic.CanonicalizeTrustVector(p)
 	m := g.csm(n, n, "positive")
 	// graph shapes
-	shape := g.pick("random", "selfloops", "chain", "star", "periodic", "disconnected", "sinks")
+	shape := g.pick("random", "selfloops", "chain", "star", "periodic", "disconnected", "sinks", "zero-rows")
 	switch shape {
 	case "selfloops":
 		for i := range m.Entries {
@@ -113,6 +121,18 @@ func (g *G) canonicalInputs(n int) (*sparse.Matrix, *sparse.Vector) {
 		for i := range m.Entries {
 			if g.intn(2) == 0 {
 				m.Entries[i] = nil
+			}
+		}
+	case "zero-rows":
+		// peers whose stated trust sums to exactly zero although the row is not empty (stored zeros, as the gRPC
+		// loader keeps them): such a row has no outbound trust and gets the pre-trust like an empty one
+		for i := range m.Entries {
+			if g.intn(2) == 0 {
+				j := g.intn(n)
+				m.Entries[i] = []sparse.Entry{{Index: j, Value: 0}}
+				if j+1 < n && g.intn(2) == 0 {
+					m.Entries[i] = append(m.Entries[i], sparse.Entry{Index: j + 1, Value: 0})
+				}
 			}
 		}
 	}
